@@ -1,4 +1,5 @@
 SPECIFICATION TSpec
-CONSTANT Configs <- QuickConfigs
+CONSTANT Configs <- QuickInvConfigs
 INVARIANT RootInvariance
 INVARIANT SplitInvariance
+INVARIANT ScopeIsRootFree
